@@ -39,7 +39,12 @@ class SpartanProtocol(BaseGopherProtocol):
 
         content_length = int(content_length)
         if content_length:
-            data = self.rfile.read(content_length)
+            try:
+                # read() returns None when the socket timeout expires first
+                data = self.rfile.read(content_length) or b""
+            except (OverflowError, MemoryError):
+                self.write_status(4, "Content too large")
+                return
             self.searchrequest = data.decode(errors="surrogateescape")
 
         try:
